@@ -22,9 +22,10 @@ def margin_str(m):
     return " ".join((f"{v}%" if k == "pct" else q(v)) for k, v in m)
 
 
-def concretise(c, rnd):
+def concretise(c, rnd, late=False):
     ids = ["a", "b", "d", "e", "f"]
     els = []
+    anchor = '<point id="zz" xy="0 0"/>' if late else ""
     for i, b in enumerate(c["refs"]):
         rk = c["refkinds"]
         if rk == "mixed":
@@ -36,13 +37,26 @@ def concretise(c, rnd):
             own = f'<rect id="{ids[i]}" surround="#h{ids[i]}"/>'
             els.append(base + own if rnd.random() < 0.5 else own + base)
             continue
+        if late and rk in ("rect", "ellipse", "circle", "line"):
+            # placed against an anchor that is written at the very end: when the container is
+            # reached this element is registered but has no position yet - the container waits
+            x1, y1, x2, y2 = b["x1"], b["y1"], b["x2"], b["y2"]
+            if rk == "rect":
+                els.append(f'<rect id="{ids[i]}" xy="#zz@c {q(x1)} {q(y1)}" wh="{q(x2 - x1)} {q(y2 - y1)}"/>')
+            elif rk == "line":
+                els.append(f'<line id="{ids[i]}" xy1="#zz@c {q(x1)} {q(y1)}" xy2="#zz@c {q(x2)} {q(y2)}"/>')
+            elif rk == "circle":
+                els.append(f'<circle id="{ids[i]}" cxy="#zz@c {q((x1 + x2) / 2)} {q((y1 + y2) / 2)}" r="{q((x2 - x1) / 2)}"/>')
+            else:
+                els.append(f'<ellipse id="{ids[i]}" cxy="#zz@c {q((x1 + x2) / 2)} {q((y1 + y2) / 2)}" rxy="{q((x2 - x1) / 2)} {q((y2 - y1) / 2)}"/>')
+            continue
         els.append(geom.ref_element(rk, b, ids[i], rnd))
     refs = rnd.choice([" ", ", "]).join("#" + ids[i] for i in range(len(c["refs"])))
     m = f' margin="{margin_str(c["margin"])}"' if c["margin"] else ""
     me = f'<{c["kind"]} id="s" {c["mode"].split("-")[0]}="{refs}"{m}/>'
     if rnd.random() < 0.5:
-        return "<svg>" + "".join(els) + me + "</svg>"
-    return "<svg>" + me + "".join(els) + "</svg>"      # forward references
+        return "<svg>" + "".join(els) + me + anchor + "</svg>"
+    return "<svg>" + me + "".join(els) + anchor + "</svg>"      # forward references
 
 
 def ellipse_of(el):
@@ -69,6 +83,10 @@ def run(rep, tier, seed):
             continue
         xml = concretise(c, random.Random(rnd.random()))
         cases.append({"k": f"c12-{j}", "xml": xml, "case": c, "key": xml})
+        # the same with every listed element still waiting for its position when the container is reached
+        if c["refkinds"] in ("circle", "ellipse") or j % 3 == 0:
+            xml = concretise(c, random.Random(rnd.random()), late=True)
+            cases.append({"k": f"c12-{j}-late", "xml": xml, "case": c, "key": xml})
 
     def check(c, resp):
         cs = c["case"]
@@ -133,6 +151,21 @@ def run(rep, tier, seed):
             return ("contain:inside:within-shape", f"rect {dict(el.attrs)} pokes out of the {cs['refkinds']} with box {E}")
         return None
     geom.run_and_compare(rep, cases, check, "c12")
+    # "surround, inside and margin never appear in the output": also where a margin stands alone
+    lone = []
+    for j, (kind, size) in enumerate([("rect", 'wh="5 3"'), ("circle", 'r="2"'), ("ellipse", 'rxy="3 2"'), ("rect", 'xy="1 1" wh="2"'), ("line", 'xy1="0 0" xy2="3 3"')]):
+        for m in ("2", "10%", "1 2 3 4", "-1"):
+            xml = f'<svg><{kind} id="s" {size} margin="{m}"/></svg>'
+            lone.append({"k": f"c12m-{j}-{m}", "xml": xml, "case": {"mode": "margin-alone", "kind": kind}, "key": xml})
+
+    def check_lone(c, resp):
+        if resp["status"] != "ok":
+            return ("contain:margin-alone:not-ok", f"transform failed: {resp.get('err')}")
+        el = geom.find_by_id(resp["out"], "s")
+        if el is None or "margin" in el.attrs:
+            return ("contain:margin-alone:residue", f"margin left in the output: {dict(el.attrs) if el is not None else None}")
+        return None
+    geom.run_and_compare(rep, lone, check_lone, "c12m")
     rep.notes["rule"] = "cases enumerated by TLC (Geom.tla ContainCases): reference lists x container kind x margin form"
     rep.notes["exhaustive"] = True
 
